@@ -5,7 +5,7 @@
 name=$1; src=$2
 wt=/tmp/confirm_$name
 # extra compiler flags may be given in the first line of the demonstration (// ... -DFOO -std=c++14 ...)
-xf=$(head -1 $src/demo.cpp | grep -o -- '-D[A-Za-z0-9_=]*\|-std=[a-z+0-9]*\|-pthread' | tr '\n' ' ')
+xf=$(head -1 $src/demo.cpp | sed 's/([^)]*)//g' | grep -o -- '-D[A-Za-z0-9_=]*\|-std=[a-z+0-9]*\|-pthread' | tr '\n' ' ')
 std=-std=c++11; case "$xf" in *-std=*) std= ;; esac
 git -C /repo worktree remove --force $wt >/dev/null 2>&1
 git -C /repo worktree add -q --detach $wt HEAD || exit 2
